@@ -254,7 +254,9 @@ class Gen:
     Every task has variable r: R (In parameter, or Out of its first service).
     """
 
-    def __init__(self, rng, depth=3, ntasks=3, ploops=True, params=True, services="ABCD", focus=None):
+    def __init__(self, rng, depth=3, ntasks=3, ploops=True, params=True, services="ABCD", focus=None, ploop_lit_in_loop=False, shadow_loopvars=False):
+        self.ploop_lit_in_loop = ploop_lit_in_loop
+        self.shadow_loopvars = shadow_loopvars
         self.rng = rng
         self.depth = depth
         self.ntasks = ntasks
@@ -309,6 +311,8 @@ class Gen:
 
     def fresh_loopvar(self, enclosing):
         """counting variable: names are reused between loops of one task, never inside a loop over the same name"""
+        if enclosing and self.shadow_loopvars and self.rng.random() < 0.2:
+            return enclosing[-1]  # the same counting variable as the enclosing loop (shadowing)
         pool = [v for v in ("i", "j", "k", "m") if v not in enclosing]
         if pool and self.rng.random() < 0.8:
             return self.rng.choice(pool[:2])
@@ -327,7 +331,7 @@ class Gen:
                 # a second parallel loop over the same counting variable in the same task instance
                 if rng.random() < 0.5:
                     out.append({"k": "svc", "name": rng.choice(self.services), "ins": self.svc_params(ctx["loopvars"]), "outs": []})
-                lim = rng.choice([1, 2, 3]) if rng.random() < 0.5 else rng.choice(NUM_PATHS)
+                lim = rng.choice([1, 2, 3]) if (rng.random() < 0.5 or ctx.get("inloop")) else rng.choice(NUM_PATHS)
                 out.append({"k": "ploop", "var": st["var"], "limit": lim, "call": self.call(callees, ctx["loopvars"] + [st["var"]])})
         return out
 
@@ -344,7 +348,8 @@ class Gen:
             kinds += ["cond", "cond", "cloop", "wloop"]
             if callees:
                 kinds += ["call", "call", "par"]
-                if self.ploops and ctx["ploop_ok"]:
+                if self.ploops and (ctx["ploop_ok"] or (ctx.get("inloop") and self.ploop_lit_in_loop)):
+                    # inside a loop of the same task only with a literal limit (a variable limit there is finding K3b)
                     kinds += ["ploop"]
         if self.focus and depth > 0:
             for fk in self.focus:
@@ -365,20 +370,28 @@ class Gen:
         if k == "cloop":
             v = self.fresh_loopvar(lv)
             lim = rng.choice([0, 1, 2, 2, 3]) if rng.random() < 0.6 else rng.choice(NUM_PATHS)
-            c2 = dict(ctx, inloop=True, loopvars=lv + [v], ploop_ok=False)
+            if lv and v == lv[-1] and ctx.get("last_limit") is not None and rng.random() < 0.6:
+                lim = ctx["last_limit"]  # ... and the same limit: two loops with identical headers
+            c2 = dict(ctx, inloop=True, loopvars=lv + [v], ploop_ok=False, last_limit=lim)
             return {"k": "cloop", "var": v, "limit": lim, "body": self.gen_block(depth - 1, callees, c2)}
         if k == "wloop":
             c2 = dict(ctx, inloop=True, ploop_ok=False)
             return {"k": "wloop", "e": gen_guard(rng), "body": self.gen_block(depth - 1, callees, c2)}
         if k == "ploop":
             v = self.fresh_loopvar(lv)
-            lim = rng.choice([0, 1, 2, 3]) if rng.random() < 0.5 else rng.choice(NUM_PATHS)
+            lim = rng.choice([0, 1, 2, 3]) if (rng.random() < 0.5 or ctx.get("inloop")) else rng.choice(NUM_PATHS)
             return {"k": "ploop", "var": v, "limit": lim, "call": self.call(callees, lv + [v])}
         raise ValueError(k)
 
     def program(self):
         rng = self.rng
         names = ["t%d" % (i + 1) for i in range(self.ntasks)]
+        # task names that are parts of the production task's name, single letters, names that contain it
+        special = ["t", "product", "duct", "production", "a", "productionTask2", "task"]
+        rng.shuffle(special)
+        for i in range(len(names)):
+            if rng.random() < 0.2:
+                names[i] = special.pop()
         # signatures: In parameters of each task (productionTask has none)
         self.sigs = {"productionTask": []}
         for n in names:
@@ -438,8 +451,11 @@ def _last_stmt_chain(prog, stmt, tm, seen=()):
     return out
 
 
-def ploop_shapes(prog):
-    """returns the set of known-finding shape names the program exhibits (reachable from productionTask)"""
+def ploop_shapes(prog, literal_in_loop_ok=False):
+    """returns the set of known-finding shape names the program exhibits (reachable from productionTask).
+    literal_in_loop_ok: a parallel loop with a literal limit directly inside a loop of the same task re-uses the
+    instances of its first visit (identifiers, parameters: finding K3b) but starts the right number of instances and
+    joins them; it is admitted for the loop-count property only."""
     tm = task_map(prog)
     shapes = set()
 
@@ -460,7 +476,7 @@ def ploop_shapes(prog):
         k = s["k"]
         if k == "call":
             if s["name"] in tm and s["name"] not in seen:
-                visit_block(tm[s["name"]]["body"], inloop, seen + (s["name"],))
+                visit_block(tm[s["name"]]["body"], "via_call" if inloop else False, seen + (s["name"],))
         elif k == "par":
             for c in s["calls"]:
                 branch_checks(c, seen)
@@ -470,9 +486,11 @@ def ploop_shapes(prog):
             if s.get("failed"):
                 visit_block(s["failed"], inloop, seen)
         elif k in ("cloop", "wloop"):
-            visit_block(s["body"], True, seen)
+            visit_block(s["body"], inloop if inloop == "via_call" else "same_task", seen)
         elif k == "ploop":
-            if inloop:
+            # K3: a parallel loop that is reached again: in a task called from a loop, or with a limit read from a
+            # variable (a literal limit directly in a loop of the same task behaves well)
+            if inloop == "via_call" or (inloop and not (literal_in_loop_ok and isinstance(s["limit"], int))):
                 shapes.add("ploop_in_loop")  # K3
             branch_checks(s["call"], seen)
             visit(s["call"], inloop, seen)
@@ -486,7 +504,7 @@ def gen_program(rng, **kw):
     """a random valid program outside the known-finding shapes"""
     for _ in range(200):
         prog = Gen(rng, **kw).program()
-        if not ploop_shapes(prog):
+        if not ploop_shapes(prog, literal_in_loop_ok=bool(kw.get("ploop_lit_in_loop"))):
             return prog
     kw = dict(kw, ploops=False)
     return Gen(rng, **kw).program()
